@@ -785,6 +785,7 @@ def impl_bookkeeping(per_chr, high_memory):
         dp = object.__new__(DP.DatasetProcessor)
         dp.args = SimpleNamespace(threads=1, high_memory=high_memory, resume=False, multimap_strategy=None, keep_tmp=True)
         dp.alignment_stat_counter = EnumStats()
+        dp.gffutils_db = None           # read by warn_about_skipped_sequences (fix b09aace)
         dp.reference_record_dict = {c: "A" * (30 - 10 * i) for i, c in enumerate(BOOK_CHRS)}
         sample = SimpleNamespace(out_raw_file=os.path.join(d, "x.save"), file_list=[], prefix="x")
         dp.collect_reads(sample)
